@@ -25,6 +25,11 @@ Clauses ==
   \cup (IF T.checkKw /\ GotKw # Expected THEN {"searchers"} ELSE {})
   \cup (IF T.checkKw /\ Len(T.gotKw) # Cardinality({f \in Files : Words(f.raw) # {}}) THEN {"searcher-count"} ELSE {})
   \cup (IF T.checkKw /\ \E i \in 1..Len(T.gotKw) : Len(T.gotKw[i].words) # Cardinality(ToSet(T.gotKw[i].words)) THEN {"duplicate-word"} ELSE {})
+  \* behaviour, not only what the searcher holds: applied to a text with one of its words it reports that word, typed by the file's name
+  \cup (IF T.checkKw /\ \E i \in 1..Len(T.gotKw) :
+              \/ (T.gotKw[i].words # <<>> /\ T.gotKw[i].applied = <<>>)
+              \/ \E j \in 1..Len(T.gotKw[i].applied) : T.gotKw[i].applied[j][1] # T.gotKw[i].label
+        THEN {"searcher-label"} ELSE {})
 Init == tid \in 1..Len(Traces) /\ judged = FALSE
 Judge == /\ ~judged
          /\ LET cl == Clauses IN
